@@ -96,7 +96,7 @@ mutual
     | [], s => by intro hf; simp [findList?] at hf
     | k :: ks, s => by
       intro hf x hx
-      rw [findList?_cons] at hf
+      rw [fi_findList?_cons] at hf
       rw [hvList_cons, List.mem_append]
       cases hk : find? h k with
       | some t' =>
